@@ -14,6 +14,8 @@ import VotelibDriver.C05
 import VotelibDriver.C12
 import VotelibDriver.C03
 import VotelibDriver.C08Seq
+import VotelibDriver.PureProportionality
+import VotelibModel.PureConstrained
 import VotelibModel.PreConverted
 open Lean
 namespace VL.Drv.C10
@@ -54,6 +56,14 @@ def own (op : String) (j : Json) : Option (Except String Json) :=
     let cfg ← C12.getCfg j
     let n ← j.getObjValAs? Nat "n"
     pure (exceptJson slotsJson (Score.scoreVoting cfg votes n))
+  | "c10_pure_constrained" => some do
+    let votes ← getVotes j "votes"
+    let n ← j.getObjValAs? Nat "n"
+    pure (exceptJson votesJson (PureC.pureConstrained votes n))
+  | "c10_benham" => some do
+    let p ← C05.getProfile j "profile"
+    let n ← j.getObjValAs? Nat "n"
+    pure (exceptJson slotsJson (benhamN p n))
   | "c10_star" => some do
     let votes ← C12.getScoreProfile j
     let cfg ← C12.getCfg j
@@ -64,7 +74,7 @@ def own (op : String) (j : Json) : Option (Except String Json) :=
   | _ => none
 
 def handlers : List (String → Json → Option (Except String Json)) :=
-  [own, C09.handle, C01.handle, C16.handle, C02.handle, C12.handle, C03.handle, C08Seq.handle, C05.handle]
+  [own, C09.handle, C01.handle, C16.handle, C02.handle, C12.handle, C03.handle, C08Seq.handle, C05.handle, Pure.handle]
 
 def handle (op : String) (j : Json) : Option (Except String Json) :=
   handlers.firstM (fun h => h op j)
